@@ -358,6 +358,12 @@ def verify_seen_cut(fx, cg, comp):
                                 covered |= {y for _, y in v}
                         under = set(allv) - covered
             rec_variants |= set(allv) if under is None else under
+            # the recursive call hands on THIS function's seen set (a fresh or different set forgets the ancestors, so a cycle
+            # through that position is never cut); calls that go through another member of the cycle are checked there
+            if name in cg.resolve_local(c):
+                passes_seen = any(F.local_of(F.strip(a)) == seen for a in c.get("args", []))
+                if not passes_seen:
+                    return False, f"the recursive call at {F.loc(c['span'])} does not hand on the seen set it was given (a fresh set forgets the ancestors: a cycle through that position is never cut)", {"function": name}
         missing = sorted(rec_variants - accepted)
         smp = {"function": name, "guarded_enum": adt, "guard_accepts": sorted(accepted), "recursive_variants": sorted(rec_variants), "recursive_calls": n_calls}
         if n_calls == 0:
